@@ -47,6 +47,7 @@ var Prop = &engine.Prop{
 		{Name: "order", Quick: 800, Thorough: 240000, Fn: orderCase},
 		{Name: "datestr", Quick: 2000, Thorough: 600000, Fn: dateCase},
 		{Name: "range", Quick: 1600, Thorough: 480000, Fn: rangeCase},
+		{Name: "conc", Quick: 60, Thorough: 3000, Fn: concCase},
 	},
 	Floors: map[string]int64{
 		"cases_nodebits_8":             20,
